@@ -63,6 +63,10 @@ def cases(tier, seed):
                         # train mode (what REINFORCE / PPO rollouts run in) for the attention models: every second case
                         tm = bool(r % 2) and kind in ("am", "am_instnorm", "am_layernorm")
                         out.append(dict(policy=kind, env=env, n=n, B=B, s=rnd.randrange(10**6), wseed=r, extra=extra, decode=dk, train_mode=tm))
+    for env in ("tsp", "cvrp", "cvrptw", "sdvrp", "svrp", "op", "mtvrp"):
+        for (n, n2) in (((6, 11), (10, 7)) if q else ((6, 11), (10, 7), (10, 20))):
+            for dk in DECODES:
+                out.append(dict(policy="am", env=env, n=n, inst_n=n2, B=rnd.choice([1, 4]), s=rnd.randrange(10**6), wseed=0, extra={}, decode=dk, train_mode=False))
     for env, extra in (("fjsp", dict(jobs=3, mas=2, min_ops=1, max_ops=3, mask_no_ops=True)), ("jssp", dict(jobs=3, mas=3, one2one=True, mask_no_ops=True))):
         for B in ((1, 4) if q else (1, 2, 4, 8)):
             for clip in (10, 0, 3):
